@@ -27,6 +27,9 @@ def cases():
               lambda x, v: v * (1.0 - onp.tanh(x) ** 2 + 1.0 / (1.0 + x * x) + onp.exp(x) + 2.0 * x / (1.0 + x * x))))
     C.append(("np.sum / np.prod-free reductions with zeros: mean, var", lambda np, x: np.mean(x) + np.var(x), x0, lambda x, v: onp.sum(v) / 3.0 + onp.sum(2.0 * (x - onp.mean(x)) * (v - onp.mean(v))) / 3.0))
     C.append(("np.where(x == 0, 1.0, x) * x", lambda np, x: np.where(x == 0, 1.0, x) * x, x0, lambda x, v: v * onp.where(x == 0, 1.0, 2.0 * x)))
+    # a removable singularity of the rule's formula at a point where the function itself is smooth: sinc'(0) = 0
+    _ds = lambda x: onp.where(x == 0, 0.0, (onp.cos(onp.pi * x) * onp.pi * x - onp.sin(onp.pi * x)) / (onp.pi * onp.where(x == 0, 1.0, x) ** 2))
+    C.append(("np.sinc(x) with a 0.0 in x", lambda np, x: np.sinc(x), x0, lambda x, v: v * _ds(x)))
     # NaN-ignoring selectors: where the OTHER operand is NaN the result is x itself (derivative 1): a regular point
     YN = onp.array([onp.nan, 1.0, onp.nan])
     C.append(("np.fmax(x, y) with NaN entries in y", lambda np, x: np.fmax(x, YN), x0, lambda x, v: v * onp.where(onp.isnan(YN) | (x > YN), 1.0, 0.0)))
@@ -126,3 +129,181 @@ def run(seed=0):
 if __name__ == "__main__":
     for r in run() + run_adjoint():
         print(r["status"], r["key"], r["detail"][:200])
+
+
+def run_nested(seed=0):
+    """C08 / C07 at pinned values of an OUTER traced scalar that meets an inner traced array in one binary operation
+    (x ** p at p == 2, x * p at p == 1, x + p at p == 0, ...): a value-based shortcut taken on a traced operand loses the
+    outer variable.  d/dp [ sum_i w_i d/dx_i b(x, p) ] in all four mode combinations, plus base and exponent traced at the
+    same level, against closed forms (float64 replay evidence, not a solver verdict: the symbolic engine only reasons
+    about generic values)."""
+    import numpy as onp
+    import autograd.numpy as np
+    from autograd import elementwise_grad, grad, make_jvp
+
+    x0 = onp.array([1.5, 0.7, 2.2])
+    w = onp.array([1.0, -2.0, 0.5])
+    L = onp.log
+    dfw = lambda f, at: make_jvp(f)(at)(onp.ones(onp.shape(at)))[1]
+    bodies = [
+        ("x ** p", lambda x, p: x ** p, lambda p: x0 ** (p - 1) * (1 + p * L(x0)), (2.0, 1.0, 0.0, 3.0, 0.5, -1.0, -2.0)),
+        ("np.power(x, p)", lambda x, p: np.power(x, p), lambda p: x0 ** (p - 1) * (1 + p * L(x0)), (2.0, 1.0, 0.0, 3.0, 0.5, -1.0)),
+        ("p ** x", lambda x, p: p ** x, lambda p: p ** (x0 - 1) * (x0 * L(p) + 1), (1.0, 2.0, onp.e, 0.5)),
+        ("x * p * x", lambda x, p: x * p * x, lambda p: 2 * x0, (1.0, 0.0, -1.0, 2.0)),
+        ("p * x * x", lambda x, p: p * x * x, lambda p: 2 * x0, (1.0, 0.0, -1.0, 2.0)),
+        ("(x + p) * (p + x)", lambda x, p: (x + p) * (p + x), lambda p: 2 + 0 * x0, (0.0, 1.0, -1.5)),
+        ("(x - p) * x", lambda x, p: (x - p) * x, lambda p: -1 + 0 * x0, (0.0, 1.0)),
+        ("x * x / p", lambda x, p: x * x / p, lambda p: -2 * x0 / p ** 2, (1.0, -1.0, 2.0)),
+        ("p / x", lambda x, p: p / x, lambda p: -1 / x0 ** 2, (1.0, 0.0, 2.0)),
+        ("np.sin(x) * p + x ** 2 * p", lambda x, p: np.sin(x) * p + x ** 2 * p, lambda p: onp.cos(x0) + 2 * x0, (1.0, 0.0, 2.0)),
+    ]
+    combos = [("rev-over-rev", lambda b, p0: grad(lambda p: np.sum(w * elementwise_grad(lambda x: b(x, p))(x0)))(p0)),
+              ("rev-over-fwd", lambda b, p0: grad(lambda p: np.sum(w * dfw(lambda x: b(x, p), x0)))(p0)),
+              ("fwd-over-rev", lambda b, p0: make_jvp(lambda p: np.sum(w * elementwise_grad(lambda x: b(x, p))(x0)))(p0)(1.0)[1]),
+              ("fwd-over-fwd", lambda b, p0: make_jvp(lambda p: np.sum(w * dfw(lambda x: b(x, p), x0)))(p0)(1.0)[1])]
+    out = []
+    for lab, b, closed, pins in bodies:
+        for p0 in pins:
+            want = float(onp.sum(w * closed(p0)))
+            for cname, op in combos:
+                key = "PINNED nested %s | d/dp of d/dx [%s] at the pinned outer value p = %r" % (cname, lab, p0)
+                try:
+                    with warnings.catch_warnings():
+                        warnings.simplefilter("ignore")
+                        got = float(op(b, p0))
+                    ok = onp.isfinite(got) and abs(got - want) <= 1e-9 * max(1.0, abs(want))
+                    out.append(_res(key, ok, "" if ok else "got %r, closed form %r" % (got, want)))
+                except Exception as e:
+                    out.append({"key": key, "status": "raises", "detail": "%s: %s" % (type(e).__name__, str(e)[:100]), "paths": 1, "queries": 0, "validated": 0, "verdicts": {}, "prim": "pinned"})
+    # the same question for EVERY binary ufunc of the rule tables, without closed forms: the inner derivative F(p) =
+    # sum_i w_i d/dx_i u(x, p) is also computable with p an ordinary (untraced) constant, so its central difference in p
+    # is an independent reference for the traced mixed derivative at the pinned value (rejected where F is not smooth
+    # there: differences with h and h/2 disagree)
+    ufs = ["add", "subtract", "multiply", "divide", "true_divide", "power", "arctan2", "hypot", "logaddexp", "logaddexp2", "maximum", "minimum", "fmax", "fmin",
+           "mod", "remainder", "fmod", "copysign", "float_power", "heaviside", "nextafter", "ldexp"]
+    for un in ufs:
+        u = getattr(np, un, None)
+        if u is None:
+            continue
+        for side, body in (("u(x, p)", lambda x, p, u=u: u(x, p)), ("u(p, x)", lambda x, p, u=u: u(p, x))):
+            for p0 in (0.0, 1.0, 2.0, -1.0, 0.5, 3.0):
+                key = "PINNED nested generic | d/dp of d/dx np.%s as %s at the pinned outer value p = %r (reference: central difference in p of the inner derivative)" % (un, side, p0)
+                try:
+                    with warnings.catch_warnings():
+                        warnings.simplefilter("ignore")
+                        F = lambda pv: float(onp.sum(w * elementwise_grad(lambda x: body(x, pv))(x0)))
+                        fd1 = (F(p0 + 1e-5) - F(p0 - 1e-5)) / 2e-5
+                        fd2 = (F(p0 + 5e-6) - F(p0 - 5e-6)) / 1e-5
+                        if not (onp.isfinite(fd1) and onp.isfinite(fd2)) or abs(fd1 - fd2) > 1e-4 * max(1.0, abs(fd1)):
+                            continue  # not a smooth point of the inner derivative (or not finite): no claim
+                        bad = []
+                        for cname, op in combos[:3]:
+                            got = float(op(body, p0))
+                            if not (onp.isfinite(got) and abs(got - fd1) <= 1e-4 * max(1.0, abs(fd1))):
+                                bad.append("%s gives %r" % (cname, got))
+                    out.append(_res(key, not bad, "" if not bad else "%s; central difference %r" % ("; ".join(bad), fd1)))
+                except Exception as e:
+                    continue  # no rule / unsupported operand: a loud refusal, not this probe's business
+    # second derivative at a point where a rule's formula has a removable singularity (np.sinc at 0): a guard that makes the
+    # FIRST derivative finite there must not freeze it (the second derivative of sinc at 0 is -pi^2/3, not 0).  Claimed only
+    # when the first derivative comes out finite; a non-finite first derivative is the first-order probe's business.
+    xs = onp.array([0.0, 0.5, -1.25])
+    s2 = lambda x: onp.where(x == 0, -onp.pi ** 2 / 3.0, ((2.0 - (onp.pi * x) ** 2) * onp.sin(onp.pi * x) - 2.0 * onp.pi * x * onp.cos(onp.pi * x)) / (onp.pi * onp.where(x == 0, 1.0, x) ** 3))
+    for cname, op in (("rev-over-rev", lambda: elementwise_grad(elementwise_grad(np.sinc))(xs)),
+                      ("fwd-over-rev", lambda: make_jvp(elementwise_grad(np.sinc))(xs)(onp.ones(3))[1]),
+                      ("rev-over-fwd", lambda: elementwise_grad(lambda x: dfw(np.sinc, x))(xs)),
+                      ("fwd-over-fwd", lambda: make_jvp(lambda x: dfw(np.sinc, x))(xs)(onp.ones(3))[1])):
+        key = "PINNED second order %s | np.sinc with a 0.0 in x (claimed where the first derivative is finite)" % cname
+        try:
+            with warnings.catch_warnings():
+                warnings.simplefilter("ignore")
+                first = onp.asarray(elementwise_grad(np.sinc)(xs) if "over-rev" in cname else dfw(np.sinc, xs), dtype=float)
+                got = onp.asarray(op(), dtype=float)
+            m = onp.isfinite(first)
+            ok = bool(onp.all(onp.isfinite(got[m]))) and onp.allclose(got[m], s2(xs)[m], rtol=1e-8, atol=1e-10)
+            out.append(_res(key, ok, "" if ok else "first derivative %r, second derivative %r, closed form %r" % (first.tolist(), got.tolist(), s2(xs).tolist())))
+        except Exception as e:
+            out.append({"key": key, "status": "raises", "detail": "%s: %s" % (type(e).__name__, str(e)[:100]), "paths": 1, "queries": 0, "validated": 0, "verdicts": {}, "prim": "pinned"})
+    # base and exponent / both operands traced at the SAME level, the scalar one at a pinned value
+    a = 0.8
+    same = [
+        ("(t * a) ** t", lambda t: (t * a) ** t, lambda t: (t * a) ** t * (L(t * a) + 1), (2.0, 1.0, 3.0, 0.5)),
+        ("np.sum(x0 * t) ** t", lambda t: np.sum(x0 * t) ** t, lambda t: (onp.sum(x0) * t) ** t * (L(onp.sum(x0) * t) + 1), (2.0, 1.0)),
+        ("(t + 1) * t  [t = 0: a factor equal to 1 and one equal to 0]", lambda t: (t + 1.0) * t, lambda t: 2 * t + 1, (0.0, 1.0)),
+        ("np.sin(t) / t * t", lambda t: np.sin(t) / t * t, lambda t: onp.cos(t), (1.0, 2.0)),
+    ]
+    for lab, f, closed, pins in same:
+        for t0 in pins:
+            want = float(closed(t0))
+            for cname, op in (("grad", lambda: grad(f)(t0)), ("make_jvp", lambda: make_jvp(f)(t0)(1.0)[1]),
+                              ("second derivative consistency (grad of grad vs jvp of grad)", lambda: float(grad(grad(f))(t0)) - float(make_jvp(grad(f))(t0)(1.0)[1]) + want)):
+                key = "PINNED same-level %s | %s at t = %r" % (cname, lab, t0)
+                try:
+                    with warnings.catch_warnings():
+                        warnings.simplefilter("ignore")
+                        got = float(op())
+                    ok = onp.isfinite(got) and abs(got - want) <= 1e-9 * max(1.0, abs(want))
+                    out.append(_res(key, ok, "" if ok else "got %r, closed form %r" % (got, want)))
+                except Exception as e:
+                    out.append({"key": key, "status": "raises", "detail": "%s: %s" % (type(e).__name__, str(e)[:100]), "paths": 1, "queries": 0, "validated": 0, "verdicts": {}, "prim": "pinned"})
+    return out
+
+
+def run_complex(seed=0):
+    """C09 at pinned points of complex-typed inputs: exact zeros, integer exponents, and np.real_if_close, whose OUTPUT KIND
+    depends on the data (a complex-typed input with zero imaginary parts gives a real result: locally z -> Re z, so a
+    complex tangent v maps to Re v and the cotangent of the complex input is the real g lifted to complex).
+    forward: jvp(v) == closed form for a complex tangent; reverse: <g, jvp(e)>_R == <vjp(g), e>_R for e in {1, i} e_k."""
+    import numpy as onp
+    import autograd.numpy as np
+    from autograd import make_jvp, make_vjp
+
+    z0 = onp.array([0.0 + 0.0j, 1.5 + 0.5j, -2.0j])
+    zr = onp.array([0.0 + 0.0j, 1.5 + 0.0j, -2.0 + 0.0j])  # complex dtype, every imaginary part exactly zero
+    v = onp.array([0.7 + 0.3j, -1.3 - 0.9j, 2.1 + 1.7j])
+    c3 = onp.array([2.0, -1.0, 0.5])
+    C = []
+    for k in (0, 1, 2, 3):
+        C.append(("z ** %d with 0j in z" % k, lambda np, z, _k=k: z ** _k, z0, lambda z, t, _k=k: t * (_k * z ** (_k - 1) if _k else 0.0 * z)))
+        C.append(("np.power(z, %d) with 0j in z" % k, lambda np, z, _k=k: np.power(z, _k), z0, lambda z, t, _k=k: t * (_k * z ** (_k - 1) if _k else 0.0 * z)))
+    C.append(("z * z + np.conj(z) * z at 0j", lambda np, z: z * z + np.conj(z) * z, z0, lambda z, t: 2 * z * t + onp.conj(t) * z + onp.conj(z) * t))
+    C.append(("np.real_if_close(z) * c on complex-typed z with zero imaginary parts (real result)", lambda np, z: np.real_if_close(z) * c3, zr, lambda z, t: onp.real(t) * c3))
+    C.append(("np.sin(np.real_if_close(z)) on complex-typed z with zero imaginary parts", lambda np, z: np.sin(np.real_if_close(z)), zr, lambda z, t: onp.cos(onp.real(z)) * onp.real(t)))
+    C.append(("np.real_if_close(z) on z with visible imaginary parts (complex result)", lambda np, z: np.real_if_close(z) * (1.0 + 2.0j), z0 + 0.25j, lambda z, t: t * (1.0 + 2.0j)))
+    C.append(("np.real(z) * np.imag(z) + np.abs(z) ** 2 away from 0", lambda np, z: np.real(z) * np.imag(z) + np.abs(z) ** 2, z0 + (1.0 + 1.0j),
+              lambda z, t: onp.real(t) * onp.imag(z) + onp.real(z) * onp.imag(t) + 2.0 * onp.real(onp.conj(z) * t)))
+    out = []
+    rin = lambda a, b: float(onp.sum(onp.real(onp.conj(a) * b)))
+    for lab, f, x0, closed in C:
+        key = "PINNED complex jvp | %s" % lab
+        try:
+            with warnings.catch_warnings():
+                warnings.simplefilter("ignore")
+                got = onp.asarray(make_jvp(lambda z: f(np, z))(x0)(v)[1])
+                want = onp.asarray(closed(x0, v))
+                y = onp.asarray(f(onp, x0))
+            ok = got.shape == want.shape and bool(onp.all(onp.isfinite(got))) and onp.allclose(got, want, rtol=1e-9, atol=1e-12) and (onp.iscomplexobj(got) == onp.iscomplexobj(y))
+            out.append(_res(key, ok, "" if ok else "got %r (kind of the result: %s), closed form %r" % (got.tolist(), y.dtype, want.tolist())))
+        except Exception as e:
+            out.append({"key": key, "status": "raises", "detail": "%s: %s" % (type(e).__name__, str(e)[:100]), "paths": 1, "queries": 0, "validated": 0, "verdicts": {}, "prim": "pinned"})
+        key = "PINNED complex vjp | %s" % lab
+        try:
+            with warnings.catch_warnings():
+                warnings.simplefilter("ignore")
+                y = onp.asarray(f(onp, x0))
+                g = (onp.cos(onp.arange(3.0)) + 1.5) * ((1.0 - 0.5j) if onp.iscomplexobj(y) else 1.0)
+                r = onp.asarray(make_vjp(lambda z: f(np, z))(x0)[0](g))
+                bad = []
+                for k in range(3):
+                    for unit in (1.0, 1.0j):
+                        e = onp.zeros(3, dtype=complex)
+                        e[k] = unit
+                        # autograd's convention: <conj(vjp(g)), e>_R == <conj(g), J_R e>_R
+                        lhs, rhs = rin(onp.conj(r), e), rin(onp.conj(g), onp.asarray(closed(x0, e)))
+                        if not (onp.isfinite(lhs) and abs(lhs - rhs) <= 1e-9 * max(1.0, abs(rhs))):
+                            bad.append((k, unit, lhs, rhs))
+            ok = not bad and r.shape == x0.shape and onp.iscomplexobj(r)
+            out.append(_res(key, ok, "" if ok else "cotangent %r; mismatching (entry, direction, got, want): %r" % (r.tolist(), bad[:3])))
+        except Exception as e:
+            out.append({"key": key, "status": "raises", "detail": "%s: %s" % (type(e).__name__, str(e)[:100]), "paths": 1, "queries": 0, "validated": 0, "verdicts": {}, "prim": "pinned"})
+    return out
